@@ -4,6 +4,6 @@ RSlots == 1..3
 RTokens == {10, 11, 12, 13, 14, 15, -10, -11, -12, -13, -14, -15, 0, -1, 2, -3}
 RWeights == {1, 4, 8, 132}
 RFactors == {<<2, 1>>}
-ROps == {"Add", "AddW", "Merge", "Clear", "Copy"}
+ROps == {"Add", "AddW", "Merge", "Merge", "EncDec", "Clear", "Copy"}
 RInit == (1 :> NewSketch("plain", 1, "exact", 0, "exact", 0)) @@ (2 :> NewSketch("plain", 1, "exact", 0, "exact", 0)) @@ (3 :> NewSketch("plain", 1, "exact", 0, "exact", 0))
 ====
